@@ -217,7 +217,12 @@ def verify_delegation(
     # delegation_name.
     checkformat_signable(untrusted_delegated_metadata)
     try:
-        checkformat_delegating_metadata(untrusted_delegated_metadata)
+        # Only the signed portion may decide this: the signatures portion is
+        # not signed, so an attacker could otherwise switch the type check
+        # off by adding a malformed signature entry.
+        checkformat_delegating_metadata(
+            {"signatures": {}, "signed": untrusted_delegated_metadata["signed"]}
+        )
     except (ValueError, TypeError):
         # If we can't verify that we're verifying more delegating metadata
         # (e.g. we're using root to verify key_mgr), then we don't need to
